@@ -41,6 +41,7 @@ type recIn struct {
 	TTL    int    `json:"ttl"`
 	Prio   int    `json:"prio"`
 	Target string `json:"target"`
+	Wild   bool   `json:"wild"` // owner name written as *.example.com
 }
 
 type recObs struct {
@@ -393,6 +394,9 @@ func observe(in input) []c18case {
 		if in.rec.Type == 64 {
 			prefix = "B"
 		}
+		if in.rec.Wild {
+			prefix += "*."
+		}
 		line := []byte(fmt.Sprintf("%sexample.com,%s,%d,,%d,", prefix, in.rec.Target, in.rec.TTL, in.rec.Prio))
 		line = append(line, in.text...)
 		codec := new(dnsdata.Codec)
@@ -604,7 +608,7 @@ func genRec(r *hlib.Rng) *recIn {
 	}
 	targets := []string{"svc.example.net", ".", "a.b", "x"}
 	return &recIn{Type: 64 + r.Intn(2), TTL: []int{0, 60, 300, 86400}[r.Intn(4)],
-		Prio: []int{0, 1, 2, 16, 65535}[r.Intn(5)], Target: targets[r.Intn(len(targets))]}
+		Prio: []int{0, 1, 2, 16, 65535}[r.Intn(5)], Target: targets[r.Intn(len(targets))], Wild: r.Chance(1, 4)}
 }
 
 func renderSeg(r *hlib.Rng, k int, v []byte) []byte {
